@@ -266,6 +266,9 @@ const preludeBase = `
 (declare-fun shl (Int Int) Int)
 (declare-fun shr (Int Int) Int)
 (declare-fun strconcat (Int Int) Int)
+`
+
+const preludeQuant = `
 (assert (forall ((s Int)) (! (and (>= (slen s) 0) (<= (slen s) 9223372036854775807)) :pattern ((slen s)))))
 (assert (forall ((s Int) (i Int)) (! (and (<= 0 (sat s i)) (<= (sat s i) 255)) :pattern ((sat s i)))))
 (assert (forall ((a Int) (b Int)) (! (= (slen (strconcat a b)) (+ (slen a) (slen b))) :pattern ((strconcat a b)))))
